@@ -280,9 +280,18 @@ def judge(run, job, wf_lines):
             rl = re.search(r"reload-load rc=(-?\d+)", out)
             if mset and mset.group(1) == "0" and rs and rs.group(1) != "0":
                 v.append(("reload-after-failed-load-ebusy", "after hwloc_topology_load() failed the topology cannot be configured again: set_synthetic returns -1 errno=%s (state stays IS_LOADING; hwloc.h: 'configured and loaded again')" % rs.group(2)))
+            elif rl and rl.group(1) == "0" and re.search(r"reload-infos \d+", out) and not reload_infos_ok(job, out):
+                v.append(("failed-load-leaves-topology-infos", "topology-level infos imported before an XML load failed survive the failure (hwloc_topology_load's failure path does not clear topology->infos): the next successful load on the same handle shows them: %s" % re.search(r"reload-infos[^\n]*", out).group(0)[:160]))
             elif not rl or rl.group(1) != "0" or "reload-check ok" not in out or "reload-nbpus 8" not in out or ("reload-cpukinds" in out and ("reload-cpukinds %d" % (0 if job.tflags & 512 else 2)) not in out):
                 v.append(("reload-failed", "after a failed set/load, configuring a valid synthetic source and loading again does not give the expected topology"))
     return v
+
+
+def reload_infos_ok(job, out):
+    names = re.search(r"reload-infos \d+([^\n]*)", out).group(1).split()
+    if job.opts & 16:
+        return names == []                       # the reload document has no topology-level <info>
+    return set(names) <= {'"hwlocVersion"', '"ProcessName"', '"Backend"', '"SyntheticDescription"'} and len(names) == len(set(names))
 
 
 def wf_verdicts(jobs, wfdrv):
@@ -405,6 +414,36 @@ def make_jobs(run, exe, scratch):
     for nb in ([65536] if quick else [65536, 65537, 4294967295]):
         t = G.tiny_seed(False).replace(b'nbobjs="2"', b'nbobjs="%d"' % nb)
         add("topo", t, "boundary:distances-nbobjs-%d" % nb, backends=(0,), tflags=0, opts=4)
+    # 6b. the root object itself: every type name, and I/O roots with valid / invalid bus ids (objects the importer "ignores")
+    for si, (name, data) in enumerate(seeds[2:4]):
+        toks0 = G.tokenize(data)
+        ri = next(i for i, t in enumerate(toks0) if t[0] == "tag" and t[2] == b"object")
+        variants = [[(b"type", ty)] for ty in G.TYPE_VALUES]
+        for ty in (b"Bridge", b"PCIDev", b"OSDev", b"Misc"):
+            for extra in ([(b"pci_busid", b"zz")], [(b"pci_busid", b"0000:00:00.0")], [(b"bridge_pci", b"zz"), (b"bridge_type", b"0-1")],
+                          [(b"bridge_type", b"0-1"), (b"pci_busid", b"zz")], [(b"osdev_type", b"x")]):
+                variants.append([(b"type", ty)] + extra)
+                variants.append([(b"type", ty)] + extra + [(b"cpuset", None), (b"nodeset", None), (b"complete_cpuset", None), (b"complete_nodeset", None)])
+        for k, var in enumerate(variants):
+            toks = G.tokenize(data)
+            attrs = toks[ri][3]
+            for an, av in var:
+                attrs[:] = [a for a in attrs if a[0] != an]
+                if av is not None:
+                    attrs.insert(0 if an == b"type" else len(attrs), [an, av])
+            add("topo", G.serialize(toks), "root:%s:%s" % (name, "+".join("%s=%s" % (a.decode(), (v or b"-").decode("latin1")) for a, v in var)),
+                backends=(k % 2,) if quick else (0, 1), tflags=0, opts=4 | (16 if k % 3 == 0 else 0))
+    # 6c. documents that fail late, after topology-level infos (and cpukinds, memattrs, distances) were imported:
+    #     the reload step then shows whether anything of the failed document survives
+    late = [b'<cpukind bogus="1"/>', b'<memattr bogus="1"/>', b'<distances2 nbobjs="0"/>', b'<info bogus="1"/>', b'<support', b'<memattr name="x" flags="1"><bogus/></memattr>']
+    r3 = seeds[0][1]
+    i0 = r3.index(b'<info name="Backend" value="Linux"/>\n</topology>')
+    r3early = r3[:r3.index(b"<distances2 ")] + b'<info name="Backend" value="Linux"/>\n<info name="Foo" value="Bar"/>\n' + r3[r3.index(b"<distances2 "):i0] + b"</topology>\n"
+    for base, bname in ((r3early, "rich3-infos-first"), (seeds[1][1], "rich2")):
+        for k, bad in enumerate(late):
+            doc = base.replace(b"</topology>", bad + b"</topology>")
+            add("topo", doc, "late-failure:%s:%d" % (bname, k), backends=(0, 1), tflags=0, opts=4 | 16)
+            add("topo", doc, "late-failure:%s:%d" % (bname, k), backends=(0,), tflags=0, opts=4)
     # 7. nesting depth: one C stack frame of hwloc__xml_import_object per level
     depth = 30000
     o = b'<object type="Group" cpuset="0x1" complete_cpuset="0x1" nodeset="0x1" complete_nodeset="0x1" kind="0" subkind="0">'
